@@ -67,6 +67,9 @@ type linEnv struct {
 	condDefs []condDef
 	maxOf    map[string]int64 // atoms of narrow unsigned type: their largest value
 	resolving bool
+	// defFacts: facts that hold by the definition of an atom (q = x / k for x >= 0: k*q <= x <= k*q + k-1)
+	defFacts []linFact
+	defSeen  map[string]bool
 }
 
 type condDef struct {
@@ -242,6 +245,28 @@ func (e *linEnv) lin(v ssa.Value) *linExpr {
 				form = newLin().add(e.lin(t.Y), k)
 			}
 		}
+		if t.Op == token.QUO && form == nil {
+			if k, ok := constIntOf(t.Y); ok && k > 1 && isNonNeg(t.X) {
+				x := e.lin(t.X)
+				q := e.atom(v)
+				var name string
+				for n := range q.t {
+					name = n
+				}
+				e.nonneg[name] = true
+				if e.defSeen == nil {
+					e.defSeen = map[string]bool{}
+				}
+				if !e.defSeen[name] {
+					e.defSeen[name] = true
+					lo := newLin().add(q, k).add(x, -1) // k*q - x <= 0
+					hi := x.add(q, -k)                  // x - k*q - (k-1) <= 0
+					hi.c -= k - 1
+					e.defFacts = append(e.defFacts, linFact{lf: lo, why: "q = x/k"}, linFact{lf: hi, why: "q = x/k"})
+				}
+				return q
+			}
+		}
 		if form != nil {
 			w, signed := intWidth(t.Type())
 			if signed {
@@ -377,11 +402,11 @@ func (e *linEnv) factsFrom0(f Fact) []linFact {
 // entailsLin: do the facts (each lf <= 0) together with non-negativity of the env's nonneg atoms imply goal <= 0 ?
 // Bounded search: goal = sum of at most 4 facts (coefficient 1 or 2) + a non-positive combination of nonneg atoms + a constant <= 0.
 func (e *linEnv) entailsLin(facts []linFact, goal *linExpr) bool {
-	if e.resolving || (len(e.condDefs) == 0 && len(e.maxOf) == 0) {
+	if e.resolving || (len(e.condDefs) == 0 && len(e.maxOf) == 0 && len(e.defFacts) == 0) {
 		return e.entailsLin0(facts, goal)
 	}
 	// type ranges, then the unsigned results whose linear form provably does not wrap (inner results first)
-	facts = append([]linFact{}, facts...)
+	facts = append(append([]linFact{}, facts...), e.defFacts...)
 	var ranged []string
 	for n := range e.maxOf {
 		ranged = append(ranged, n)
@@ -578,6 +603,9 @@ func isNonNeg(v ssa.Value) bool {
 	}
 	return false
 }
+
+// assumedMinLen: preconditions len(param) >= k that a rule states for its entry points.
+var assumedMinLen = map[*ssa.Parameter]int64{}
 
 // ---- field invariants ----
 
@@ -960,10 +988,7 @@ func (bp *boundsProver) computePost(f *ssa.Function) bool {
 				continue
 			}
 			n++
-			env := newLinEnv()
-			facts := bp.factsAtPoint(f, rp.Block, rp.EdgeFacts, env)
-			goal := env.lin(rp.Results[k]).add(env.lenOf(f.Params[bi]), -1)
-			if !env.entailsLin(facts, goal) {
+			if !bp.boundedByLen(f, rp.Block, rp.EdgeFacts, rp.Results[k], f.Params[bi], map[*ssa.Phi]bool{}, 0) {
 				ok = false
 				break
 			}
@@ -979,10 +1004,67 @@ func (bp *boundsProver) computePost(f *ssa.Function) bool {
 	return changed
 }
 
+// boundedByLen: v <= len(buf) at the end of blk. Direct entailment from the facts there; otherwise, for a phi, the
+// same claim for every incoming value at the end of its predecessor, with the claim for the phi itself as induction
+// hypothesis (a phi that is being shown may be assumed on the way round the loop: the hypothesis enters as a fact).
+func (bp *boundsProver) boundedByLen(f *ssa.Function, blk *ssa.BasicBlock, extra []Fact, v, buf ssa.Value, assumed map[*ssa.Phi]bool, depth int) bool {
+	env := newLinEnv()
+	facts := bp.factsAtPoint(f, blk, extra, env)
+	var hyps []*ssa.Phi
+	for p := range assumed {
+		hyps = append(hyps, p)
+	}
+	sort.Slice(hyps, func(i, j int) bool { return hyps[i].Pos() < hyps[j].Pos() })
+	for _, p := range hyps {
+		// the hypothesis about p holds wherever p's block dominates
+		if p.Block() == blk || p.Block().Dominates(blk) {
+			facts = append(facts, linFact{lf: env.lin(p).add(env.lenOf(buf), -1), why: "induction hypothesis"})
+		}
+	}
+	goal := env.lin(v).add(env.lenOf(buf), -1)
+	if env.entailsLin(facts, goal) {
+		return true
+	}
+	phi, ok := v.(*ssa.Phi)
+	if !ok || depth > 3 {
+		return false
+	}
+	if assumed[phi] {
+		return false // already a hypothesis: it was not enough here
+	}
+	assumed[phi] = true
+	defer delete(assumed, phi)
+	for i, e := range phi.Edges {
+		if e == ssa.Value(phi) {
+			continue
+		}
+		pred := phi.Block().Preds[i]
+		var ex []Fact
+		if ef, ok := edgeFact(pred, phi.Block()); ok {
+			ex = append(ex, ef)
+		}
+		if ep, isPhi := e.(*ssa.Phi); isPhi && assumed[ep] {
+			continue
+		}
+		if !bp.boundedByLen(f, pred, ex, e, buf, assumed, depth+1) {
+			return false
+		}
+	}
+	return true
+}
+
 // factsAtPoint gathers the linear facts valid at a block: dominating branch outcomes, postconditions of successful
 // helper calls, stride facts.
 func (bp *boundsProver) factsAtPoint(f *ssa.Function, blk *ssa.BasicBlock, extra []Fact, env *linEnv) []linFact {
 	var out []linFact
+	// stated preconditions of an entry point (the property's own hypothesis, e.g. "input of at least header size")
+	for _, p := range f.Params {
+		if k, ok := assumedMinLen[p]; ok {
+			lf := newLin().add(env.lenOfAny(p), -1)
+			lf.c = k
+			out = append(out, linFact{lf: lf, why: "precondition of the entry point"})
+		}
+	}
 	facts := append(factsAt(f, blk), extra...)
 	for _, ft := range facts {
 		out = append(out, env.factsFrom(ft)...)
